@@ -292,11 +292,11 @@ def main():
         if not r.printed:
             raise tlc.TlcError("weakened model %s produced no counterexample (vacuous weakening)" % w)
         rep.add_tlc(r, "BobArtifacts Weak={%s} (counterexample generation)" % w)
-        sel = select(r.printed, 5 if quick else 40, rng)
+        sel = select(r.printed, 5 if quick else 25, rng)
         rep.extra.setdefault("weakened_model_counterexamples", {})[w] = {"found": len(r.printed), "replayed": len(sel)}
         behaviours += [(h, "cex:" + w) for h in sel]
     g = out["gen"]
-    sel = select(g.printed, 26 if quick else 400, rng,
+    sel = select(g.printed, 26 if quick else 250, rng,
                  need=lambda h: any(x["a"] == "End" and x["dl"] > 0 for x in h))
     behaviours += [(h, "simulate") for h in sel]
     rep.extra["simulated"] = {"generated": len(g.printed), "replayed": len(sel)}
